@@ -202,10 +202,19 @@ def run_stream(exe, lines, timeout=3600, env=None):
     data = ("\n".join(lines) + "\n").encode()
     e = dict(os.environ)
     if env: e.update(env)
-    p = subprocess.run([exe], input=data, stdout=subprocess.PIPE, stderr=subprocess.PIPE, timeout=timeout, env=e)
-    out = p.stdout.decode("utf-8", "replace").split("\n")
+    timeout = min(timeout, int(os.environ.get("VERIF_STREAM_TIMEOUT", timeout)))
+    p = subprocess.Popen([exe], stdin=subprocess.PIPE, stdout=subprocess.PIPE, stderr=subprocess.PIPE, env=e)
+    try:
+        so, se = p.communicate(data, timeout=timeout); rc = p.returncode
+    except subprocess.TimeoutExpired:
+        # a line that never returns: keep what was answered so far, so that the caller can name the hanging line
+        p.kill(); so, se = p.communicate(); rc = HANG_RC
+        se = (b"<hang> no answer within %d s\n" % timeout) + se[-4000:]
+    out = so.decode("utf-8", "replace").split("\n")
     if out and out[-1] == "": out.pop()
-    return p.returncode, out, p.stderr.decode("utf-8", "replace")
+    if rc == HANG_RC and out and len(out) <= len(lines) and not so.endswith(b"\n"): out.pop()      # partial last line
+    return rc, out, se.decode("utf-8", "replace")
+HANG_RC = -999
 
 def diff_streams(lines, impl, model):
     """returns list of (index, line, impl_out, model_out) for disagreements.  A `~` prefix on a model
